@@ -197,13 +197,14 @@ func (c readerCfg) coq() string {
 }
 
 type instr struct {
-	name   string
-	float  bool
-	updown bool
-	ic     metric.Int64Counter
-	iu     metric.Int64UpDownCounter
-	fc     metric.Float64Counter
-	fu     metric.Float64UpDownCounter
+	name    string
+	streams []int // indices (into world.streams) of the stream identities this instrument feeds
+	float   bool
+	updown  bool
+	ic      metric.Int64Counter
+	iu      metric.Int64UpDownCounter
+	fc      metric.Float64Counter
+	fu      metric.Float64UpDownCounter
 }
 
 func (in *instr) add(ctx context.Context, v int64, opt metric.AddOption) {
@@ -227,6 +228,8 @@ type world struct {
 	period  []*sdk.PeriodicReader
 	exps    []*recExporter
 	insts   []*instr
+	streams []string // stream identities: metric names compared case-insensitively (lower-cased)
+	viewsD  []string
 	keyIdx  map[string]uint64
 	mp      *sdk.MeterProvider
 	cbFail  atomic.Bool
@@ -253,8 +256,16 @@ func (wd *world) extractor(want metricdata.Temporality) func(*metricdata.Resourc
 					wd.bad("the silent observable instrument reported data")
 					continue
 				}
-				if _, dup := d[m.Name]; dup {
-					wd.bad("stream reported twice in one collection")
+				ident := strings.ToLower(m.Name)
+				if _, dup := d[ident]; dup {
+					wd.bad("two streams with the same (case-insensitive) identity in one collection: " + m.Name)
+				}
+				known := false
+				for _, sname := range wd.streams {
+					known = known || sname == ident
+				}
+				if !known {
+					wd.bad("unexpected stream " + m.Name)
 				}
 				pts := map[uint64]int64{}
 				put := func(set attribute.Set, v int64) {
@@ -289,7 +300,7 @@ func (wd *world) extractor(want metricdata.Temporality) func(*metricdata.Resourc
 				default:
 					wd.bad(fmt.Sprintf("unexpected aggregation %T", m.Data))
 				}
-				d[m.Name] = pts
+				d[ident] = pts
 			}
 		}
 		return d
@@ -300,7 +311,7 @@ func allDelta(sdk.InstrumentKind) metricdata.Temporality { return metricdata.Del
 func allCum(sdk.InstrumentKind) metricdata.Temporality   { return metricdata.CumulativeTemporality }
 
 // build creates provider, readers, instruments and the observable callback.
-func build(w *vgen.Writer, r *vgen.Rand, desc any, cfgs []readerCfg, nInst int, interval time.Duration, keyIdx map[string]uint64, forceKind int) (*world, error) {
+func build(w *vgen.Writer, r *vgen.Rand, desc any, cfgs []readerCfg, nInst int, interval time.Duration, keyIdx map[string]uint64, forceKind int, views bool, errcb bool) (*world, error) {
 	wd := &world{w: w, desc: desc, cfgs: cfgs, keyIdx: keyIdx}
 	var opts []sdk.Option
 	for _, c := range cfgs {
@@ -329,10 +340,49 @@ func build(w *vgen.Writer, r *vgen.Rand, desc any, cfgs []readerCfg, nInst int, 
 			opts = append(opts, sdk.WithReader(mr))
 		}
 	}
+	// views: 0-2 views per instrument renaming its stream (same name twice, names differing only in
+	// letter case, distinct names).  Stream identity = lower-cased name; every identity must carry
+	// every measurement of the instrument exactly once.
+	names := make([][]string, nInst)
+	for i := 0; i < nInst; i++ {
+		base := fmt.Sprintf("c%d", i)
+		names[i] = []string{base}
+		if views {
+			switch r.Intn(8) {
+			case 0:
+				names[i] = []string{base + "x"}
+			case 1:
+				names[i] = []string{base + "x", base + "x"}
+			case 2:
+				names[i] = []string{base + "x", strings.ToUpper(base) + "X"}
+			case 3:
+				names[i] = []string{base + "x", base + "y"}
+			case 4:
+				names[i] = []string{strings.ToUpper(base) + "Y", base + "y"}
+			}
+			if len(names[i]) > 1 || names[i][0] != base {
+				for _, n := range names[i] {
+					opts = append(opts, sdk.WithView(sdk.NewView(sdk.Instrument{Name: base}, sdk.Stream{Name: n})))
+				}
+				wd.viewsD = append(wd.viewsD, fmt.Sprintf("%s -> %v", base, names[i]))
+			}
+		}
+	}
 	wd.mp = sdk.NewMeterProvider(opts...)
 	meter := wd.mp.Meter("verif/c02")
 	for i := 0; i < nInst; i++ {
 		in := &instr{name: fmt.Sprintf("c%d", i), float: r.Bool(), updown: r.Bool()}
+		for _, n := range names[i] {
+			ident := strings.ToLower(n)
+			found := false
+			for _, si := range in.streams {
+				found = found || wd.streams[si] == ident
+			}
+			if !found {
+				in.streams = append(in.streams, len(wd.streams))
+				wd.streams = append(wd.streams, ident)
+			}
+		}
 		if forceKind == 1 {
 			in.updown = false
 		}
@@ -351,6 +401,9 @@ func build(w *vgen.Writer, r *vgen.Rand, desc any, cfgs []readerCfg, nInst int, 
 			return nil, err
 		}
 		wd.insts = append(wd.insts, in)
+	}
+	if !errcb {
+		return wd, nil
 	}
 	g, err := meter.Int64ObservableGauge("errcb")
 	if err != nil {
@@ -397,10 +450,10 @@ func obsTerm(wd *world, dels [][]delivery) string {
 	var perReader []string
 	for r := range wd.cfgs {
 		var perInst []string
-		for _, in := range wd.insts {
+		for _, sname := range wd.streams {
 			var ds []string
 			for _, d := range dels[r] {
-				ds = append(ds, pointsTerm(d, in.name))
+				ds = append(ds, pointsTerm(d, sname))
 			}
 			perInst = append(perInst, vgen.List(ds))
 		}
@@ -450,7 +503,7 @@ type seqOp struct {
 
 func runSequential(w *vgen.Writer, r *vgen.Rand, desc string, cfgs []readerCfg, nInst, nSets int, ops []seqOp, gen bool, nOps int, kind string) {
 	sets, keyIdx := genSets(r, nSets)
-	wd, err := build(w, r, desc, cfgs, nInst, time.Hour, keyIdx, 0)
+	wd, err := build(w, r, desc, cfgs, nInst, time.Hour, keyIdx, 0, gen, true)
 	if err != nil {
 		w.Violation("setup failed: "+err.Error(), desc)
 		return
@@ -466,7 +519,9 @@ func runSequential(w *vgen.Writer, r *vgen.Rand, desc string, cfgs []readerCfg, 
 			in := wd.insts[o.i]
 			s := sets[o.set%len(sets)]
 			in.add(ctx, o.v, metric.WithAttributes(toAttr(s)...))
-			terms = append(terms, vgen.App("Ad", vgen.N(uint64(o.i)), vgen.N(keyIdx[canon(s)]), zig(o.v)))
+			for _, si := range in.streams { // one measurement, seen once by every stream identity of the instrument
+				terms = append(terms, vgen.App("Ad", vgen.N(uint64(si)), vgen.N(keyIdx[canon(s)]), zig(o.v)))
+			}
 			descOps = append(descOps, fmt.Sprintf("add %s{%s} %d", in.name, canon(s), o.v))
 		case "err":
 			wd.cbFail.Store(o.b)
@@ -571,8 +626,11 @@ func runSequential(w *vgen.Writer, r *vgen.Rand, desc string, cfgs []readerCfg, 
 	}
 	w.Tally(fmt.Sprintf("seq:ops=%d", len(terms)/20*20))
 	w.Tally(fmt.Sprintf("seq:deliveries=%d", min(nDel, 40)/8*8))
-	term := vgen.App("CSeq", vgen.List(cfgT), vgen.N(uint64(nInst)), vgen.List(terms), obsTerm(wd, dels), vgen.List(codeT))
-	w.Add(term, map[string]any{"history": desc, "readers": cfgD, "ops": descOps}, kind, nDel >= 2)
+	if len(wd.viewsD) > 0 {
+		w.Tally("seq:with-views")
+	}
+	term := vgen.App("CSeq", vgen.List(cfgT), vgen.N(uint64(len(wd.streams))), vgen.List(terms), obsTerm(wd, dels), vgen.List(codeT))
+	w.Add(term, map[string]any{"history": desc, "readers": cfgD, "views": wd.viewsD, "ops": descOps}, kind, nDel >= 2)
 }
 
 // ---- concurrent fragment ----
@@ -590,7 +648,7 @@ func runConcurrent(w *vgen.Writer, r *vgen.Rand, desc string) {
 	if nonneg {
 		fk = 1
 	}
-	wd, err := build(w, r, desc, cfgs, nInst, interval, keyIdx, fk)
+	wd, err := build(w, r, desc, cfgs, nInst, interval, keyIdx, fk, true, true)
 	if err != nil {
 		w.Violation("setup failed: "+err.Error(), desc)
 		return
@@ -738,7 +796,13 @@ func runConcurrent(w *vgen.Writer, r *vgen.Rand, desc string) {
 		w.Tally(fmt.Sprintf("conc:reader periodic=%v delta=%v", c.periodic, c.delta))
 	}
 	var addT []string
-	for i := range totals {
+	streamInst := make([]int, len(wd.streams))
+	for i, in := range wd.insts {
+		for _, si := range in.streams {
+			streamInst[si] = i
+		}
+	}
+	for _, i := range streamInst {
 		ks := make([]uint64, 0, len(totals[i]))
 		for k := range totals[i] {
 			ks = append(ks, k)
